@@ -26,6 +26,8 @@ TEMPLATES = {
     'rawvec': ('rawvec.vtmpl', 'src/collections/raw_vec.rs'),
     'vecpanic': ('vecpanic.vtmpl', 'src/collections/vec.rs'),
     'strbounds': ('strbounds.vtmpl', 'src/collections/string.rs'),
+    'strretain': ('strretain.vtmpl', 'src/collections/string.rs'),
+    'drainfilter': ('drainfilter.vtmpl', 'src/collections/vec.rs'),
 }
 
 
